@@ -312,6 +312,50 @@ func runC11(c *Ctx) {
 				}
 			}
 			if len(copyCalls) == 1 {
+				// the stream is read at most once, WHATEVER the outcome: the "already copied" latch is set on every exit of
+				// the copying call, failing ones included (a second GetBody after a failed copy must not copy the rest of
+				// the stream and overwrite the recorded error)
+				isFlagAddr := func(ad ssa.Value) bool {
+					if fv, isFV := ad.(*ssa.FreeVar); isFV {
+						return typeStr(fv.Type()) == "*bool"
+					}
+					if fa, isFA := ad.(*ssa.FieldAddr); isFA {
+						n, _ := structOf(fa.X.Type())
+						return n != nil && isNewType(n) && typeStr(fa.Type()) == "*bool"
+					}
+					return false
+				}
+				isLatch := func(in ssa.Instruction) bool {
+					st, ok := in.(*ssa.Store)
+					if !ok || !isFlagAddr(st.Addr) {
+						return false
+					}
+					b, isB := constBool(st.Val)
+					return isB && b
+				}
+				latched := false
+				for _, d := range defersIn(gb) {
+					if df := deferredBody(d); df != nil && dominates(d, copyCalls[0]) {
+						all := true
+						for _, r := range returnsOf(df) {
+							if pathExists(df, nil, r, nil, isLatch) {
+								all = false
+							}
+						}
+						if all && len(returnsOf(df)) > 0 {
+							latched = true
+						}
+					}
+				}
+				if !latched {
+					latched = true
+					for _, r := range realReturns(gb) {
+						if pathExists(gb, copyCalls[0], r, nil, nil) && pathExists(gb, copyCalls[0], r, nil, isLatch) {
+							latched = false
+						}
+					}
+				}
+				c.obI("R11.2", copyCalls[0], "stream-read-at-most-once", latched, "the call that copies the stream sets the 'copied' latch on every one of its exits, also when the copy or the close fails: no later GetBody reads the stream again", "an exit after the copy (a failing copy or close) leaves the latch unset: the next GetBody copies again and overwrites the recorded error")
 				// errors of copy/close make GetBody return nil and are recorded in copyErr
 				for _, r := range realReturns(gb) {
 					if !isNilConst(resOf(r, 0)) && pathExists(gb, copyCalls[0], r, nil, nil) {
